@@ -217,6 +217,24 @@ func alphabet() []call {
 			}
 			return fmt.Sprintf("packages=%d", bytes.Count(buf.Bytes(), []byte(`"SPDXID": "SPDXRef-n`)))
 		}},
+		{"WriteStream(private, spdx23, render options of its own)", func(i int) string {
+			// every thread renders with another indentation; the result is a digest of the bytes as written (creation
+			// time blanked), so a layout that belongs to another call shows
+			var buf bytes.Buffer
+			w := writer.New(writer.WithFormat(formats.SPDX23JSON), writer.WithRenderOptions(&native.RenderOptions{Indent: []int{1, 2, 7}[i%3]}))
+			if err := w.WriteStream(privateDoc(i), nopCloser{&buf}); err != nil {
+				return "err:" + err.Error()
+			}
+			return fmt.Sprintf("%x", sha256.Sum256(createdRe.ReplaceAll(buf.Bytes(), []byte(`"created": "T"`))))[:12]
+		}},
+		{"WriteStream(private, cdx15, render options of its own)", func(i int) string {
+			var buf bytes.Buffer
+			w := writer.New(writer.WithFormat(formats.CDX15JSON), writer.WithRenderOptions(&native.RenderOptions{Indent: []int{1, 2, 7}[i%3]}))
+			if err := w.WriteStream(privateDoc(i), nopCloser{&buf}); err != nil {
+				return "err:" + err.Error()
+			}
+			return fmt.Sprintf("%x", sha256.Sum256(timestampRe.ReplaceAll(buf.Bytes(), []byte(`"timestamp": "T"`))))[:12]
+		}},
 		{"WriteStream(private, cdx15)", func(i int) string {
 			var buf bytes.Buffer
 			w := writer.New(writer.WithFormat(formats.CDX15JSON))
@@ -262,6 +280,11 @@ func alphabet() []call {
 		}},
 	}
 }
+
+var (
+	createdRe   = regexp.MustCompile(`"created":\s*"[^"]*"`)
+	timestampRe = regexp.MustCompile(`"timestamp":\s*"[^"]*"`)
+)
 
 // resetState restores the package state the scenarios start from (no execution in progress).
 //
